@@ -545,20 +545,24 @@ func (p *c08) usable(o *Outcome, ev *c08Eval, text string, opt bool, after strin
 	if p.check(o, r.Escaped, "benign run after "+after) {
 		return
 	}
-	if !r.Failed {
-		return
-	}
 	fresh := p.newEval(text, "")
 	if err, esc := doPrepare(fresh.e, opt); err != nil || esc != nil {
 		return
 	}
 	fresh.h.Maybe = []bool{false}
-	// the fresh evaluator gets the same variables (usability, not equality,
-	// is compared: a script may legitimately fail on its own state)
+	// the fresh evaluator gets the same variables: "usable" means that the
+	// evaluator still does for a benign object what a new one would do
 	snap.giveTo(fresh.e)
 	rf := p.apiCall(fresh, 0, benign)
-	if !rf.Failed && rf.Escaped == nil {
+	if rf.Escaped != nil || rf.Failed {
+		// (the script fails on this object or on its own state: nothing to compare)
+		return
+	}
+	switch {
+	case r.Failed:
 		o.violate("C08/unusable-after-fault", after, "after %s the evaluator answers a benign run with %q although a fresh evaluator holding the same variables returns %s", after, r.Err, rf.Out)
+	case r.Out != rf.Out:
+		o.violate("C08/unusable-after-fault", after+" wrong-answer", "after %s the evaluator answers a benign run with %s, a fresh evaluator holding the same variables with %s", after, r.Out, rf.Out)
 	}
 }
 
